@@ -105,6 +105,41 @@ def _worker(cases):
             d = opsreplay.first_difference(exp, got)
             if d:
                 out.setdefault("sdl-build/schema-differs/%s" % opsreplay.generalize(d), ["built schema differs from the declaration", dict(wit, difference=d)])
+        # additional_types: an enum / scalar definition of the document is supplied as a pre-built type object instead of SDL text, and the
+        # document is built TWICE with the same object: both builds give Build(doc) and the supplied object is left as it was
+        def referenced(name):
+            # additional_types are "known types that should not be built when referenced": a supplied type nothing refers to is not
+            # part of the result, so the variant only applies to types that a field or argument of the document uses
+            def inner(t):
+                return t["n"] if t["k"] == "named" else inner(t["of"])
+            for i in c["doc"]:
+                if i["it"] != "def":
+                    continue    # (a supplied type that only extension blocks mention is not known to the first build phase: out of scope)
+                for f in i["t"].get("fields") or []:
+                    if inner(f["type"]) == name or any(inner(a["type"]) == name for a in f.get("args") or []):
+                        return True
+            return False
+        pre_items = [i for i in c["doc"] if i["it"] == "def" and i["t"]["k"] in ("enum", "scalar") and referenced(i["t"]["name"])]
+        if pre_items and c["r"]["ok"]:
+            item = pre_items[0]
+            name = item["t"]["name"]
+            try:
+                pre = build_schema("type Query { zz: Int }\n" + render_item(item)).get_type(name)
+                before = [v.name for v in getattr(pre, "values", [])]
+                rest = "\n".join(render_item(i) for i in c["doc"] if i is not item)
+                for attempt in (1, 2):
+                    n += 1
+                    wit = {"sdl": rest, "additional_types": [name], "build": attempt, "menu_items": c["picked"]}
+                    schema = build_schema(rest, additional_types=[pre])
+                    d = opsreplay.first_difference(norm_expected(c["r"]["schema"]), schemagamma.project(schema, with_defaults=False))
+                    if d:
+                        out.setdefault("sdl-build/additional-types/schema-differs/build=%d/%s" % (attempt, opsreplay.generalize(d)), ["schema built with a supplied type differs from the declaration", dict(wit, difference=d)])
+                    after = [v.name for v in getattr(pre, "values", [])]
+                    if after != before:
+                        out.setdefault("sdl-build/additional-types/supplied-type-modified", ["building changed the type object supplied through additional_types", dict(wit, before=before, after=after)])
+                        break
+            except Exception as e:
+                out.setdefault("sdl-build/additional-types/raises/%s/%s" % (type(e).__name__, feature(c, c["r"])), ["building a valid document with a supplied type raises", dict(wit if 'wit' in dir() else {}, error=repr(e)[:300], menu_items=c["picked"])])
     return out, n
 
 
@@ -141,7 +176,8 @@ def invalid_feature(c):
 def run(chk):
     rng = random.Random(chk.seed)
     items = 4
-    cfg = tlc.cfg(constants={"MaxItems": items}, invariants=["Emit", "OrderFree"])
+    NMENU = 44
+    cfg = tlc.cfg(constants={"MaxItems": items, "MenuIdx": set(range(1, NMENU + 1))}, invariants=["Emit", "OrderFree"])
     r = chk.tlc("GqlSdl", cfg, tags=["BLD"], label="GqlSdl items<=%d" % items, heap="8g")
     if r.rc != 0:
         raise tlc.TLCError("GqlSdl invariant violated: %s\n%s" % (r.violated, r.tail))
@@ -150,7 +186,16 @@ def run(chk):
     rng.shuffle(cases)
     if chk.quick:
         cases = cases[:20000]
-        chk.exhaustive = len(cases) == len(r.tagged("BLD"))
+        chk.exhaustive = False
+    # focused scopes: few items, more of them per document, always replayed in full
+    for name, idx, n in (("split extension blocks", {9, 42, 43, 44}, 5), ("supplied enum / scalar, extended", {5, 8, 14, 37}, 5),
+                         ("covariant list fields", {38, 39, 40, 41}, 4), ("interface / input extension fields", {2, 6, 33, 34, 35}, 5)):
+        cfg = tlc.cfg(constants={"MaxItems": n, "MenuIdx": idx}, invariants=["Emit", "OrderFree"])
+        rf = chk.tlc("GqlSdl", cfg, tags=["BLD"], label="GqlSdl focus: %s, items<=%d" % (name, n), heap="4g")
+        if rf.rc != 0:
+            raise tlc.TLCError("GqlSdl invariant violated (%s): %s\n%s" % (name, rf.violated, rf.tail))
+        chk.count("documents / focus: %s" % name, len(rf.tagged("BLD")))
+        cases += rf.tagged("BLD")
     for out, n in par.pmap(_worker, cases):
         chk.traces += n
         for k, (what, wit) in out.items():
